@@ -9,7 +9,8 @@ can reach it.  Rules (all decided on the MIR of the current tree):
                       on a key whose backing statics are all #[thread_local]
   C16.publish         the *const CErr handed to the caller derives from that same thread-local RefCell
   C16.reader          error_description touches nothing but its argument
-  C16.only-on-failure throw_err is only ever called with the payload of an `Err` (the slot changes only on failure)
+  C16.only-on-failure throw_err is only ever called with the payload of an `Err`, and no body that stores to the slot is reachable
+                      from the C table once throw_err is cut out of the call graph (the slot changes only on failure)
 """
 from analysis import facts as F
 from analysis.effects import Effects
@@ -170,6 +171,7 @@ def run(ctx):
         wc = with_closures(facts)
         callers = reverse_graph(facts)
         nwriters = 0
+        slot_writers = {}
         for key, f in sorted(facts.fns.items()):
             if '@' in key:
                 continue
@@ -183,6 +185,8 @@ def run(ctx):
                     if not (is_slot or is_pub):
                         continue
                     nwriters += 1
+                    if is_slot:
+                        slot_writers.setdefault(key, s['at'])
                     ok, wit = tls_confined(facts, key, wc, callers)
                     rid = 'C16.slot-writers' if is_slot else 'C16.publish'
                     inst = 'store to %s in %s' % ('CErr.description_cs' if is_slot else '*c_err', key)
@@ -250,6 +254,16 @@ def run(ctx):
                     if not ok:
                         ctx.violation('C16.only-on-failure', key, 'throw_err-arg', 'throw_err is called with a value that is not the payload of an Err: '
                                       'the thread\'s stored description would change without a failure', site=t['at'], config=cfg)
+        # ... and nothing but throw_err can reach a body that stores to the slot: with throw_err cut out of the call graph, no
+        # slot-writing body is reachable from the C table (a success path that resets or refreshes the description would be)
+        seen2, _, _, parent2 = facts.reach(entries, avoid=('c_abi::throw_err',))
+        for w, at in sorted(slot_writers.items()):
+            ok = w not in seen2
+            ctx.instance('C16.only-on-failure', 'body %s stores to the slot and is reachable from the C table only through throw_err' % w, ok=ok, site=at)
+            if not ok:
+                ctx.violation('C16.only-on-failure', w, 'slot-written-outside-throw_err', 'the thread\'s stored description can be written on a call path that does not go through throw_err '
+                              '(%s): it does not stay intact until that thread\'s next failure' % ' -> '.join(x.split('::')[-1] if not x.endswith('}') else x.split('::', 1)[-1] for x in facts.path_to(parent2, w)[-4:]),
+                              site=at, path=facts.path_to(parent2, w), config=cfg)
         ctx.floor('C16.only-on-failure', 10, 'throw_err call sites')
     ctx.trust('Rust thread_local!/#[thread_local] semantics: a slot is reachable only from its own thread')
     ctx.assume('C hooks do not pass a CErr pointer obtained on one thread to another thread')
